@@ -360,7 +360,51 @@ def r08_4(prog: Program, rep):
                "of a race is told it succeeded", s.call.lineno)
 
 
+def r08_9(prog: Program, rep):
+    """locked_ref (the public compare-and-update primitive): the lock file is COMMITTED (close) only on a path where something
+    was written to it.  In __exit__ the close() is guarded by a flag attribute that is set True only in the writing methods
+    (those that call .write on the lock handle); leaving the context after a failed ensure_equals() must abort, or the
+    still empty lock file replaces the ref."""
+    m = prog.module("dulwich/refs.py")
+    ex = m.funcs.get("locked_ref.__exit__")
+    if ex is None:
+        raise AnalysisError("refs.locked_ref.__exit__ not found")
+    writers = [fn for q, fn in m.funcs.items() if q.startswith("locked_ref.") and any(
+        isinstance(c, ast.Call) and isinstance(c.func, ast.Attribute) and c.func.attr == "write" and "self._" in norm(c.func.value) for c in ast.walk(fn.node))]
+    if not writers:
+        raise AnalysisError("locked_ref: no method writes to the lock handle")
+    set_true = None
+    for w in writers:
+        st = {norm(s_.targets[0]) for s_ in ast.walk(w.node) if isinstance(s_, ast.Assign) and norm(s_.targets[0]).startswith("self._")
+              and isinstance(s_.value, ast.Constant) and s_.value.value is True}
+        set_true = st if set_true is None else (set_true & st)
+    others = {norm(s_.targets[0]) for q, fn in m.funcs.items() if q.startswith("locked_ref.") and fn not in writers and not q.endswith("__init__")
+              for s_ in ast.walk(fn.node) if isinstance(s_, ast.Assign) and isinstance(s_.value, ast.Constant) and s_.value.value is True}
+    flags = (set_true or set()) - others
+    g = cfg_of(prog, ex)
+    closes = [i for i, n in g.nodes.items() for c in node_calls(n) if isinstance(c.func, ast.Attribute) and c.func.attr == "close"]
+    if not closes:
+        raise AnalysisError("locked_ref.__exit__: close() of the lock handle not found")
+    # cut the edges on which a written-flag is true: close() must then be unreachable
+    def flag_true_label(t):
+        txt = norm(t)
+        for fl in flags:
+            if txt == fl:
+                return "true"
+            if txt == f"not {fl}":
+                return "false"
+        return None
+    tests = {i: flag_true_label(n.ast) for i, n in g.nodes.items() if n.kind == "test" and flag_true_label(n.ast)}
+    r = reach(g, [g.entry], include_srcs=True, edge_ok=lambda a, b, l: not (a in tests and l == tests[a]))
+    leak = [c for c in closes if c in r]
+    rep.ob("R08.9", m.rel, ex.qual, "the lock file is committed only when a writing method has run (a flag set only by set()/set_symbolic_ref())",
+           bool(flags) and bool(tests) and not leak,
+           "leaving `with locked_ref(..)` without a write - e.g. after ensure_equals() said no - renames the still EMPTY lock file over the ref: the ref that did not "
+           "match and had to be left untouched is destroyed", g.nodes[closes[0]].line)
+
+
 def run(prog: Program, rep, tier="quick"):
+    rep.rule("R08.9", "locked_ref commits its lock file only when something was written (no empty file over the ref after a failed comparison)")
     rep.rule("R08.1", "DEF-INSIDE: ref values feeding a test inside a ref's lock region are read inside that region")
     rep.rule("R08.2", "loose ref files are removed only under that ref's own lock; packed-refs is written under its lock "
                       "and the cache invalidated on all exits")
@@ -373,6 +417,7 @@ def run(prog: Program, rep, tier="quick"):
     r08_1(prog, rep)
     r08_2(prog, rep)
     r08_3(prog, rep)
+    r08_9(prog, rep)
     r08_4(prog, rep)
     # R08.5: the per-process packed-refs cache that the conditional operations re-read under the lock is keyed to the
     # file it was actually parsed from (same engine as R14.4)
